@@ -72,6 +72,13 @@ fn main() {
             let tier = arg(&args, "--tier").unwrap_or_else(|| "quick".into());
             batch::selfcheck(e, &prop, &tier, base, n)
         }
+        "obs" => {
+            // observation of a C16 subject in this (fresh) process
+            let file = args.get(2).expect("workload file");
+            let w: serde_json::Value = serde_json::from_str(&std::fs::read_to_string(file).expect("read")).expect("json");
+            print!("{}\n<<END>>\n", gluon_sim::props::c16::observe_in_this_process(&w));
+            0
+        }
         "primsweep" => {
             let from = arg(&args, "--from").and_then(|s| s.parse().ok()).unwrap_or(0);
             gluon_sim::props::c06::primsweep(from)
